@@ -14,7 +14,26 @@ Inductive stepx :=
 (* aliasing judgement: the harness keeps every slice returned by Values(); at the end of the trace it reads them
    again. Each must still hold what it held when it was returned (the recorded result of that Values() call):
    a result of Values() is a snapshot of the sequence, no later list operation may rewrite it. *)
-| SKept (now : list (list Z)).
+| SKept (now : list (list Z))
+(* user callbacks observing the list in the middle of an operation. The harness passes comparators / iteration
+   callbacks that read the list (its Values(), by content class) at EVERY invocation; [obs] is what they saw,
+   run-length encoded (count, contents). The documented reference (what the unmodified code does):
+     Sort, linked lists : copy the values, sort the copy, then Clear and Add: every comparator call sees the
+                          contents the list had BEFORE the Sort;
+     Sort, array list   : sorts the stored prefix in place by swaps: every comparator call sees a rearrangement
+                          of the contents before the Sort (same multiset, same length);
+     Each / Map / Select / Any / All / Find : read-only: every callback sees the list as it is.
+   SDuring sorting obs follows the SOp OSort it belongs to (sorting = true: judged against the reference before
+   that call) or an iteration (sorting = false: judged against the current reference). *)
+| SDuring (sorting : bool) (obs : list (nat * list Z))
+(* the (value) arguments an iteration callback received, in call order: the whole reference sequence (full) or,
+   when the callback panicked on the way (recovered by the harness), a prefix of it *)
+| SSeen (full : bool) (seen : list Z)
+(* a Sort whose comparator panicked at some call (recovered by the harness): [obs] as above, [after] = Values()
+   afterwards. Linked lists: the list is untouched (the panic happens while the copy is being sorted). Array
+   list: the stored prefix is some rearrangement of what it was (the sort is in place). The reference continues
+   from [after]. *)
+| SSortPanic (obs : list (nat * list Z)) (after : list Z).
 Record case := { c_kind : kind; c_steps : list stepx }.
 
 (* compact constructors for the case files *)
@@ -54,22 +73,48 @@ Definition m_step (m : mstate) (o : op) : mstate * out :=
   | ML d s => let '(s', r) := ll_step d s o in (ML d s', r)
   end.
 
-(* checker state: model state, reference sequence, recorded results of the Values() calls so far (latest first) *)
-Definition cstate : Type := mstate * list Z * list (list Z).
+(* checker state: model state, reference sequence, recorded results of the Values() calls so far (latest first),
+   reference sequence before the last call *)
+Definition cstate : Type := mstate * list Z * list (list Z) * list Z.
 Definition keep (o : op) (r : out) (kept : list (list Z)) : list (list Z) :=
   match o, fst r with OValues, RList l => l :: kept | _, _ => kept end.
 
+Definition same_multiset (a b : list Z) : bool := zlist_eqb (isort a) (isort b).
+Definition is_array (m : mstate) : bool := match m with MA _ => true | ML _ _ => false end.
+(* what a comparator may see while [pre] is being sorted *)
+Definition sort_view_ok (m : mstate) (pre seen : list Z) : bool :=
+  if is_array m then same_multiset seen pre else zlist_eqb seen pre.
+Fixpoint is_prefix (a l : list Z) : bool :=
+  match a, l with
+  | [], _ => true
+  | x :: a', y :: l' => (x =? y)%Z && is_prefix a' l'
+  | _ :: _, [] => false
+  end.
+(* the array list after a Sort that was abandoned half way: the stored prefix rearranged as observed *)
+Definition resync (m : mstate) (after : list Z) : mstate :=
+  match m with
+  | MA a => MA {| al_e := after ++ skipn (al_n a) (al_e a); al_n := al_n a |}
+  | ML _ _ => m
+  end.
+
 Definition check_step (st : cstate) (x : stepx) : cstate * nat :=
-  let '(m, l, kept) := st in
+  let '(m, l, kept, prev) := st in
   match x with
   | SOp o r =>
     let '(m', mo) := m_step m o in
     let '(l', so) := seq_step l o in
-    ((m', l', keep o r kept), kind_of (out_eqb mo r) (out_eqb so r))
+    ((m', l', keep o r kept, l), kind_of (out_eqb mo r) (out_eqb so r))
   | SBack b =>
     (st, kind_of (match m with MA a => zlist_eqb (al_e a) b | ML _ _ => true end) true)
   | SKept now =>
     (st, kind_of true (list_eqb zlist_eqb now (rev kept)))
+  | SDuring sorting obs =>
+    (st, kind_of true (forallb (fun p => if sorting then sort_view_ok m prev (snd p) else zlist_eqb (snd p) l) obs))
+  | SSeen full seen =>
+    (st, kind_of true (if full then zlist_eqb seen l else is_prefix seen l))
+  | SSortPanic obs after =>
+    ((resync m after, after, kept, l),
+     kind_of true (forallb (fun p => sort_view_ok m l (snd p)) obs && sort_view_ok m l after))
   end.
 
 (* Like Base.scan, but a kind-1 step (model differs, property holds) does not end the scan: the reference
@@ -85,5 +130,5 @@ Fixpoint scan_k2 {St X} (f : St -> X -> St * nat) (s : St) (xs : list X) (i firs
               else i * 4 + k
   end.
 
-Definition check_case (c : case) : nat := scan_k2 check_step (m_init (c_kind c), [], []) (c_steps c) 0 0.
+Definition check_case (c : case) : nat := scan_k2 check_step (m_init (c_kind c), [], [], []) (c_steps c) 0 0.
 Definition mismatches (cs : list case) : list (nat * nat) := find_bad check_case cs.
